@@ -481,6 +481,7 @@ TRANSPARENT = {
     "std::iter::Iterator::by_ref": 0, "std::iter::Iterator::peekable": 0,
     "std::ops::Index::index": 0, "std::ops::IndexMut::index_mut": 0,
     "daggy::Walker::iter": 0,
+    "daggy::Dag::<N, E, Ix>::graph": 0,       # the Dag's inner petgraph: same nodes and edges
     "std::mem::drop": None,
     "std::mem::take": 0, "std::mem::replace": 0,
     "interruptible::InterruptibleStreamExt::interruptible_with": 0,
@@ -931,6 +932,27 @@ class Flow:
         f = model.get("f")
         cb = self._closure_body_of_operand(body, args[f]) if f is not None and f < len(args) else None
         rules = model["result"]
+        if f is not None and cb is None and f < len(args) and args[f]["k"] != "const":
+            # the adaptor's function is a value of a type parameter (the library user's callback passed on, possibly by reference):
+            # what the adaptor produces from it is that callback's result
+            lt = body.locals[args[f]["pl"]["l"]] if not args[f]["pl"]["p"] else {}
+            if lt.get("k") == "param" and self.internal_callback(body, lt.get("def")) is None and any(r_[0] == "ret" for r_ in rules):
+                out = set()
+                for src, rprefix, aprefix in rules:
+                    rprefix = tuple(rprefix)
+                    if tuple(rest[:len(rprefix)]) != rprefix:
+                        continue
+                    tail = tuple(rest[len(rprefix):])
+                    if src == "ret":
+                        full = tuple(aprefix) + tail
+                        if full and full[0] == "$out":
+                            out.add(Src(("userfut", lt.get("def"), tuple(full[1:]))))
+                        else:
+                            out.add(Src(("usercall", lt.get("def"), full)))
+                    else:
+                        out |= self._q_operand(body, args[src], tuple(aprefix) + tail, mode)
+                if out:
+                    return out
         if f is not None and cb is None and "fnitem_result" in model:
             rules = model["fnitem_result"]
         matched = False
@@ -978,6 +1000,20 @@ class Flow:
         # plain fn parameter: all in-crate call sites, else entry parameter
         sites = self.call_sites().get(body.id, [])
         sig = self.fb.fns.get(body.id)
+        if not sites and path and isinstance(path[0], int):
+            # a method nobody in the crate calls directly (a trait method such as Iterator::next driven by the consumer) on a
+            # crate-private struct: a field of `self` holds whatever any construction of that struct puts into it
+            ty = body.locals[local]["s"].lstrip("&").replace("mut ", "").strip().split("<")[0]
+            adt = self.fb.adts.get(ty)
+            if adt is not None and not adt.get("public") and adt.get("kind") == "Struct":
+                found = False
+                for pb in self.fb.prod_bodies():
+                    for bb_, si_, st_ in pb.stmts():
+                        if st_["k"] == "assign" and st_["rv"]["k"] == "agg" and st_["rv"].get("def") == ty and path[0] < len(st_["rv"]["ops"]):
+                            res |= self._q_operand(pb, st_["rv"]["ops"][path[0]], tuple(path[1:]), mode)
+                            found = True
+                if found:
+                    return res
         if sig is None or self.externally_callable(sig) or not sites:
             res.add(Src(("param", body.id, local, tuple(path))))
         for (cb, bb, t) in sites:
